@@ -31,4 +31,4 @@ def run(ctx):
         "enableRecover = true (cl.SetDisableRecover(true) voids the theorem: C07_needs_enableRecover)",
         "runtime fatal errors and hangs cannot be exhibited by the model; searched only",
     ]
-    compa_flow.run_search(ctx, "GopModel.Props.C07", "c07", 1500, 60000, RULE, timeout=6000)
+    compa_flow.run_search(ctx, "GopModel.Props.C07", "c07", 4000, 60000, RULE, timeout=6000)
